@@ -403,6 +403,13 @@ Proof.
   rewrite Hrho. field. lra.
 Qed.
 
+(* the clamp [d0.min(0.0)] of repair commit fd4a7ab is the identity in exact arithmetic *)
+Lemma clamp_id (d0 de d : R) : de * de + d = -4 * (d0 * d0 * d0) -> 0 <= d -> Rmin d0 0 = d0.
+Proof.
+  intros Hid Hd. apply Rmin_left. destruct (Rle_dec d0 0); [assumption|exfalso].
+  assert (0 < d0 * d0 * d0) by (repeat apply Rmult_lt_0_compat; lra). nra.
+Qed.
+
 Definition cubic_monic (c0 c1 c2 x : R) : R := x * x * x + 3 * c2 * (x * x) + 3 * c1 * x + c0.
 
 (* the branch structure of cubic_main at the reals, in terms of t (x = t - c2) *)
@@ -424,8 +431,15 @@ Lemma cubic_main_real (c0 c1 c2 : R) :
        t * (1 * / 2 * (- cos th + sin th * sqrt 3)) + - c2;
        t * (1 * / 2 * (- cos th - sin th * sqrt 3)) + - c2].
 Proof.
-  cbv zeta. unfold cubic_main. sv_unfold. cbv [Rltb Reqb].
-  destruct (Rlt_dec _ 0); [reflexivity|]. destruct (Req_EM_T _ 0); reflexivity.
+  pose proof (disc_identity c0 c1 c2) as Hid.
+  cbv zeta in *. unfold cubic_main. sv_unfold. cbv [Rltb Reqb Rleb].
+  set (d0 := - c2 * c2 + c1) in *. set (d1 := - c1 * c2 + c0) in *.
+  set (d2 := c2 * c0 - c1 * c1) in *. set (d := 4 * d0 * d2 - d1 * d1) in *.
+  set (de := -2 * c2 * d0 + d1) in *.
+  destruct (Rlt_dec d 0); destruct (Rle_dec 0 d); try lra; [reflexivity|].
+  (* the clamp d0.min(0.0) is the identity: d >= 0 forces d0 <= 0 *)
+  rewrite (clamp_id d0 de d Hid) by lra.
+  destruct (Req_EM_T d 0); reflexivity.
 Qed.
 
 Lemma cubic_main_sound (c0 c1 c2 x : R) :
@@ -821,6 +835,10 @@ Lemma itp_loop_real (fuel : nat) (f : R -> R) (eps k1 a b ya yb se : R) :
       match fuel with
       | O => None
       | S fuel' =>
+          let x1_2 := 1 * / 2 * (a + b) in
+          if (if Rle_dec x1_2 a then true else false) || (if Rle_dec b x1_2 then true else false)
+          then Some (1 * / 2 * (a + b))
+          else
           let xitp := itp_point a b k1 ya yb se in
           let yitp := f xitp in
           if Rlt_dec 0 yitp then itp_loop fuel' f eps k1 a xitp ya yitp (se * (1 * / 2))
@@ -829,10 +847,16 @@ Lemma itp_loop_real (fuel : nat) (f : R -> R) (eps k1 a b ya yb se : R) :
       end
     else Some (1 * / 2 * (a + b)).
 Proof.
-  destruct fuel; simpl; rs_unfold; cbv [Q2R Qnum Qden Rltb]; cbv zeta;
+  destruct fuel; simpl; rs_unfold; cbv [Q2R Qnum Qden Rltb Rleb]; cbv zeta;
     destruct (Rlt_dec (2 * eps) (b - a)); try reflexivity.
+  destruct (_ || _); [reflexivity|].
   destruct (Rlt_dec 0 _); [reflexivity|]. destruct (Rlt_dec _ 0); reflexivity.
 Qed.
+
+(* over the reals the midpoint of a < b is strictly inside: the "collapsed bracket" exit is never taken *)
+Lemma itp_break_unreachable (a b : R) : a < b ->
+  (if Rle_dec (1 * / 2 * (a + b)) a then true else false) || (if Rle_dec b (1 * / 2 * (a + b)) then true else false) = false.
+Proof. intro H. destruct (Rle_dec _ a); [lra|]. destruct (Rle_dec b _); [lra|]. reflexivity. Qed.
 
 (** bracket invariant + termination within n iterations when se <= eps * 2^n *)
 Lemma itp_loop_spec (f : R -> R) (eps k1 : R) : 0 <= k1 ->
@@ -847,7 +871,7 @@ Proof.
     eexists. split; [reflexivity|]. split; [lra|]. right. exists a, b. repeat split; lra.
   - destruct (Rlt_dec (2 * eps) (b - a)) as [Hgo|Hstop].
     2: { eexists. split; [reflexivity|]. split; [lra|]. right. exists a, b. repeat split; lra. }
-    destruct fuel as [|fuel]; [lia|]. cbv zeta.
+    destruct fuel as [|fuel]; [lia|]. cbv zeta. rewrite (itp_break_unreachable a b Hab).
     destruct (itp_point_bounds a b k1 ya yb se Hab Hya Hyb Hk Hw) as (Hx & Hxa & Hxb).
     set (x := itp_point a b k1 ya yb se) in *.
     assert (Hse' : se * (1 * / 2) <= eps * 2 ^ n) by (simpl in Hse; lra).
@@ -893,16 +917,19 @@ Proof.
     nra.
 Qed.
 
-Lemma solve_itp_spec (fuel : nat) (f : R -> R) (a b eps k1 ya yb : R) (n0 : Z) :
+(* guard nmax <= 1023: beyond it the code caps the power of two (2^min(nmax,1023)) *)
+Lemma solve_itp_spec_1023 (fuel : nat) (f : R -> R) (a b eps k1 ya yb : R) (n0 : Z) :
   0 < eps -> a < b -> 0 <= k1 -> (0 <= n0)%Z ->
   ya < 0 -> 0 < yb -> f a < 0 -> 0 < f b ->
   let nmax := (n0 + itp_n1_2 a b eps)%Z in
-  (nmax < 64)%Z -> (Z.to_nat nmax <= fuel)%nat ->
+  (nmax <= 1023)%Z -> (Z.to_nat nmax <= fuel)%nat ->
   exists x, solve_itp fuel f a b eps n0 k1 ya yb = Some x /\ itp_post f eps a b x.
 Proof.
   intros Heps Hab Hk Hn0 Hya Hyb Hfa Hfb nmax H64 Hfuel.
   destruct (itp_n1_2_bound a b eps Heps Hab) as [Hn1 Hw].
-  unfold solve_itp. fold nmax. replace (64 <=? nmax)%Z with false by (symmetry; apply Z.leb_gt; exact H64).
+  unfold solve_itp. fold nmax.
+  rewrite (Z.min_l nmax (2 ^ 64 - 1)) by (change (2 ^ 64 - 1)%Z with 18446744073709551615%Z; lia).
+  rewrite (Z.min_l nmax 1023) by exact H64.
   change (@fmul R RS) with Rmult. change (@fpowi R RS) with powerRZ. change (@f2 R RS) with 2.
   assert (Hnm : (0 <= nmax)%Z) by (unfold nmax; lia).
   assert (Epow : powerRZ 2 nmax = 2 ^ Z.to_nat nmax).
@@ -917,6 +944,14 @@ Proof.
     nra.
   - rewrite Epow. lra.
 Qed.
+
+Lemma solve_itp_spec (fuel : nat) (f : R -> R) (a b eps k1 ya yb : R) (n0 : Z) :
+  0 < eps -> a < b -> 0 <= k1 -> (0 <= n0)%Z ->
+  ya < 0 -> 0 < yb -> f a < 0 -> 0 < f b ->
+  let nmax := (n0 + itp_n1_2 a b eps)%Z in
+  (nmax < 64)%Z -> (Z.to_nat nmax <= fuel)%nat ->
+  exists x, solve_itp fuel f a b eps n0 k1 ya yb = Some x /\ itp_post f eps a b x.
+Proof. intros. apply solve_itp_spec_1023; try assumption. lia. Qed.
 
 (** for a monotone function: within epsilon of every zero in the bracket (or itself a zero) *)
 Lemma itp_post_monotone (f : R -> R) (eps a b x : R) :
